@@ -33,6 +33,7 @@ type NodeSim struct {
 	Untrusted map[string]*PeerModel
 	Start *WBlock // start block (nil: never found)
 	SubData [][]byte
+	SubSetup func(node *spynode.Node) // alternative to SubData: arbitrary subscription calls before Run
 
 	Received []WireEvent // SUT -> peers
 	SentLog  []WireEvent // peers -> SUT
@@ -259,6 +260,9 @@ func (ns *NodeSim) StartNode() {
 	node.RegisterHandler(ns.Rec2)
 	if len(ns.SubData) > 0 {
 		node.SubscribePushDatas(quietCtx(), ns.SubData)
+	}
+	if ns.SubSetup != nil {
+		ns.SubSetup(node)
 	}
 	ns.RunDone = false
 	ns.RunErr = nil
